@@ -307,6 +307,31 @@ func C16Cases(p *spec.Program, seed uint64, tier string, nSplits int) ([]*Case, 
 			}
 			add("cli-precedence:"+d.Name, ref, precedenceRun(p, cfg, d.Name), Expect{Kind: "identical-file"})
 		}
+		// every spelling strconv.ParseBool accepts is a value of `sort` on the command line, and it takes
+		// precedence over the opposite value in the YAML file
+		for _, sp := range []struct {
+			s string
+			v bool
+		}{{"1", true}, {"t", true}, {"T", true}, {"TRUE", true}, {"True", true}, {"true", true},
+			{"0", false}, {"f", false}, {"F", false}, {"FALSE", false}, {"False", false}, {"false", false}} {
+			if variant >= 2 {
+				break // the value spellings do not depend on the other option values
+			}
+			want := cfg.Clone()
+			want.Sort = sp.v
+			wr := runFrom(want.Render(allOn(spec.ChYAML), nil))
+			wr.Note = fmt.Sprintf("reference: sort: %v in the YAML file", sp.v)
+			opp := cfg.Clone()
+			opp.Sort = !sp.v
+			run := runFrom(opp.Render(allOn(spec.ChYAML), nil))
+			if !opp.Sort {
+				run.Config.Content += "sort: false\n"
+			}
+			run.Params = append(run.Params, "sort="+sp.s)
+			run.Note = fmt.Sprintf("sort: %v in the YAML file, sort=%s on the command line", !sp.v, sp.s)
+			wrc := wr
+			add("cli-precedence:sort-spelling:"+sp.s, &wrc, run, Expect{Kind: "identical-file"})
+		}
 		// a command-line list that consists of separators only (`exclude_fields=+`) is the list of empty
 		// names: it matches nothing, and it still takes precedence over the YAML list. The reference is the
 		// configuration with that list left out.
